@@ -671,8 +671,12 @@ def run(chk: lib.Check):
 
     chk.coverage["rule"] = ("render(): exhaustive over 2^4 subsets of {A,B}x{.svg,.png} x unrelated-files bit x %d formats (7 entry points, "
                             "unknown, None) x fallback on/off x %d ways of giving the cache x 2 subject diagrams; __load_cache: exhaustive "
-                            "synthetic chains up to length %d plus seeded random chains; non-trivial = at least one candidate file name"
-                            % (len(fmts), len(WAYS), maxlen))
+                            "synthetic chains up to length %d plus seeded random chains; non-trivial = at least one candidate file name. "
+                            "Every way of specifying the cache (%s) is used for THREE models built from the same specification object "
+                            "(same str / Path / dict / model-info mapping expanded with ** / handler instance): each model must have the "
+                            "cache and pass the same oracle (file subsets %r; all 32 on the first model of the ways listed first), and the "
+                            "specification object must compare equal to its state before the first load"
+                            % (len(fmts), len(WAYS), maxlen, ", ".join(ALL_WAYS), REPEAT_MASKS))
     chk.coverage["exhaustive"] = True
     chk.assumptions += [
         "converters' own behaviour (convert/from_cache) and the internal renderer are parameters of the theorems; the harness inverts the real converters textually to recover which file and which conversions produced a result",
